@@ -106,6 +106,11 @@ impl vstd::std_specs::cmp::PartialEqSpecImpl for TTL {
 //@@include _lemmas_be.rs
 pub open spec fn is_ctx_topic(f: &Frame) -> bool { f.topic@ == "xs.context"@ }
 pub open spec fn stored_frame(st: &St, id: Scru128Id) -> Frame { frame_dec(st.parts.stream[id_bytes(id)]) }
+// (the registry update of remove may come before the batch, as in the code, or after it: both keep C07)
+pub open spec fn remove_log_suffix(log: Seq<Ev>, st: &St, id: Scru128Id) -> Seq<Ev> {
+    let f = stored_frame(st, id);
+    if is_ctx_topic(&f) { log.push(Ev::CtxRemove(id_u128(f.id))) } else { log }
+}
 pub open spec fn remove_log_prefix(st: &St, id: Scru128Id) -> Seq<Ev> {
     let f = stored_frame(st, id);
     if is_ctx_topic(&f) { st.log.push(Ev::CtxRemove(id_u128(f.id))) } else { st.log }
@@ -147,6 +152,22 @@ pub proof fn lemma_apply3(p: Parts, a: Op, b: Op, c: Op)
     assert(s1.drop_last() =~= Seq::<Op>::empty());
     assert(s3.last() == c && s2.last() == b && s1.last() == a);
     reveal_with_fuel(apply_ops, 5);
+}
+pub open spec fn in3(ops: Seq<Op>, o: Op) -> bool { ops[0] == o || ops[1] == o || ops[2] == o }
+pub open spec fn op_part(o: Op) -> Part { match o { Op::Insert(p, _, _) => p, Op::Remove(p, _) => p } }
+// the operations of one batch on three different partitions commute: any order of the same three gives the same stored data
+pub proof fn lemma_perm3(p: Parts, ops: Seq<Op>, want: Seq<Op>)
+    requires want.len() == 3, op_part(want[0]) == Part::Stream, op_part(want[1]) == Part::IdxTopic, op_part(want[2]) == Part::IdxCtx,
+        ops.len() == 3, in3(ops, want[0]), in3(ops, want[1]), in3(ops, want[2]),
+    ensures apply_ops(p, ops) == apply_ops(p, want)
+{
+    let a = want[0]; let b = want[1]; let c = want[2];
+    assert(want =~= seq![a, b, c]);
+    lemma_apply3(p, a, b, c);
+    assert(ops =~= seq![ops[0], ops[1], ops[2]]);
+    lemma_apply3(p, ops[0], ops[1], ops[2]);
+    let r1 = apply_ops(p, ops); let r2 = apply_ops(p, want);
+    assert(r1.stream =~= r2.stream); assert(r1.idx_topic =~= r2.idx_topic); assert(r1.idx_ctx =~= r2.idx_ctx);
 }
 pub proof fn lemma_apply_remove_ops(p: Parts, id: Scru128Id, f: &Frame)
     ensures apply_ops(p, remove_ops(id, f)) == (Parts { stream: p.stream.remove(id_bytes(id)), idx_topic: p.idx_topic.remove(fkey(f)), idx_ctx: p.idx_ctx.remove(fckey(f)) })
@@ -265,7 +286,7 @@ impl Store {
     ensures
         final(st).contexts == old(st).contexts, final(st).last_id == old(st).last_id,
         // Ok only after ONE atomic batch holding exactly the three entries, then a SyncAll persist (C04)
-        r is Ok ==> final(st).log == old(st).log.push(Ev::Commit(insert_ops(frame))).push(Ev::Persist(fjall::PersistMode::SyncAll)), //# store.insert_frame.one_batch_then_sync
+        r is Ok ==> final(st).log == old(st).log.push(Ev::Commit(final(st).parts)).push(Ev::Persist(fjall::PersistMode::SyncAll)), //# store.insert_frame.one_batch_then_sync
         r is Ok ==> final(st).parts == apply_ops(old(st).parts, insert_ops(frame)), //# store.insert_frame.three_entries
         r is Ok ==> nul_free(topic_bytes(frame)), //# store.insert_frame.nul_rejected
         // a NUL topic is rejected without any trace (C05)
@@ -273,11 +294,11 @@ impl Store {
         // failures are propagated, never swallowed: Err iff NUL topic or the storage layer reported one
         r is Err ==> (!nul_free(topic_bytes(frame)) && *final(st) == *old(st))
             || (final(st).log == old(st).log.push(Ev::CommitErr) && final(st).parts == old(st).parts)
-            || (final(st).log == old(st).log.push(Ev::Commit(insert_ops(frame))).push(Ev::PersistErr)), //# store.insert_frame.errors_propagated
+            || (final(st).log == old(st).log.push(Ev::Commit(final(st).parts)).push(Ev::PersistErr) && final(st).parts == apply_ops(old(st).parts, insert_ops(frame))), //# store.insert_frame.errors_propagated
 //@@ prologue
     broadcast use axiom_key_bytes_arr16, axiom_key_bytes_arr0, axiom_key_bytes_vec;
 //@@ before_stmt?: .commit(
-    proof { assert(batch_ops(&batch) =~= insert_ops(frame)); } //# store.insert_frame.three_entries
+    proof { lemma_perm3(st.parts, batch_ops(&batch), insert_ops(frame)); } //# store.insert_frame.three_entries
 //@@ end
 
 //@@ item file=src/store/mod.rs fn=head impl=Store ret=r
@@ -326,7 +347,8 @@ impl Store {
         !old(st).parts.stream.contains_key(id_bytes(*id)) ==> r is Ok && *final(st) == *old(st), //# store.remove.absent_noop
         // Ok: one atomic batch of exactly the three tombstones of the frame that was read, then SyncAll (C04, C05, C08)
         old(st).parts.stream.contains_key(id_bytes(*id)) && r is Ok ==>
-            final(st).log == remove_log_prefix(old(st), *id).push(Ev::Commit(remove_ops(*id, &stored_frame(old(st), *id)))).push(Ev::Persist(fjall::PersistMode::SyncAll)), //# store.remove.one_batch_then_sync
+            (final(st).log == remove_log_prefix(old(st), *id).push(Ev::Commit(final(st).parts)).push(Ev::Persist(fjall::PersistMode::SyncAll))
+                || final(st).log == remove_log_suffix(old(st).log.push(Ev::Commit(final(st).parts)).push(Ev::Persist(fjall::PersistMode::SyncAll)), old(st), *id)), //# store.remove.one_batch_then_sync
         old(st).parts.stream.contains_key(id_bytes(*id)) && r is Ok ==>
             final(st).parts == apply_ops(old(st).parts, remove_ops(*id, &stored_frame(old(st), *id))), //# store.remove.three_tombstones
         // an xs.context frame's id leaves the registry; nothing else touches it (C07)
@@ -341,7 +363,7 @@ impl Store {
         r is Err ==> !no_storage_error(old(st), final(st))
             || (old(st).parts.stream.contains_key(id_bytes(*id)) && !nul_free(topic_bytes(&stored_frame(old(st), *id)))), //# store.remove.errors_propagated
 //@@ before_stmt?: .commit(
-    proof { assert(batch_ops(&batch) =~= remove_ops(*id, &frame)); } //# store.remove.three_tombstones
+    proof { lemma_perm3(st.parts, batch_ops(&batch), remove_ops(*id, &frame)); } //# store.remove.three_tombstones
 //@@ prologue
     broadcast use axiom_key_bytes_arr16, axiom_key_bytes_arr0, axiom_key_bytes_vec;
 //@@ end
@@ -368,9 +390,12 @@ impl Store {
         // otherwise: stored (one batch, SyncAll) BEFORE the single broadcast; a head:N GC task iff the stored ttl is head:N,
         // for exactly this context, topic and N (C03, C04, C08)
         r is Ok && stored_ttl(&frame) != Some(TTL::Ephemeral) ==> final(st).parts == apply_ops(old(st).parts, insert_ops(&r.unwrap())), //# store.append.stored
-        r is Ok && stored_ttl(&frame) != Some(TTL::Ephemeral) ==> final(st).log ==
-            (ctx_log_prefix(old(st), &frame, r.unwrap().id).push(Ev::Commit(insert_ops(&r.unwrap()))).push(Ev::Persist(fjall::PersistMode::SyncAll))
-             + gc_events(&r.unwrap())).push(Ev::Broadcast(r.unwrap())), //# store.append.store_then_broadcast
+        r is Ok && stored_ttl(&frame) != Some(TTL::Ephemeral) ==> ({
+            let stored = ctx_log_prefix(old(st), &frame, r.unwrap().id).push(Ev::Commit(final(st).parts)).push(Ev::Persist(fjall::PersistMode::SyncAll));
+            // the head:N collector task may be queued before or after the broadcast; both come after the frame is durable
+            ||| final(st).log == (stored + gc_events(&r.unwrap())).push(Ev::Broadcast(r.unwrap()))
+            ||| final(st).log == stored.push(Ev::Broadcast(r.unwrap())) + gc_events(&r.unwrap())
+        }), //# store.append.store_then_broadcast
         // a failed append broadcasts nothing
         r is Err ==> forall|i: int| old(st).log.len() <= i < final(st).log.len() ==> !(final(st).log[i] is Broadcast), //# store.append.no_broadcast_on_err
         old(st).log.len() <= final(st).log.len(),
